@@ -47,10 +47,15 @@ type c17cfg struct {
 	end       bool
 	errorOnly bool
 	threads   int
+	stderr    bool // the threads write to the wrapper handed out for stderr instead of the one for stdout
 }
 
 func (c c17cfg) name() string {
-	return fmt.Sprintf("direct/%s/begin=%v/end=%v/error_only=%v/threads=%d", c.mode, c.begin, c.end, c.errorOnly, c.threads)
+	n := fmt.Sprintf("direct/%s/begin=%v/end=%v/error_only=%v/threads=%d", c.mode, c.begin, c.end, c.errorOnly, c.threads)
+	if c.stderr {
+		n += "/stderr"
+	}
+	return n
 }
 
 // direct harness: threads obtain wrappers from the real output.Group / output.Prefixed over one
@@ -113,7 +118,10 @@ func c17Direct(c c17cfg) *Unit {
 			vars.Set("N", ast.Var{Value: strings.ToUpper(letters[i])})
 			cache := &templater.Cache{Vars: vars}
 			g.Go(func() error {
-				w, _, closer := out.WrapWriter(raw, raw, strings.ToUpper(letters[i]), cache)
+				w, we, closer := out.WrapWriter(raw, raw, strings.ToUpper(letters[i]), cache)
+				if c.stderr {
+					w = we
+				}
 				for _, ch := range picks[i].chunks {
 					w.Write([]byte(ch))
 				}
@@ -314,6 +322,7 @@ func c17Units(tier string) []*Unit {
 	}
 	us = append(us, c17Direct(c17cfg{mode: "group", begin: true, end: true, threads: 3}))
 	us = append(us, c17Direct(c17cfg{mode: "prefixed", threads: 2}))
+	us = append(us, c17Direct(c17cfg{mode: "prefixed", threads: 2, stderr: true}), c17Direct(c17cfg{mode: "group", begin: true, end: true, threads: 2, stderr: true}))
 	if tier == "thorough" {
 		us = append(us, c17Direct(c17cfg{mode: "prefixed", threads: 3}))
 	}
